@@ -69,6 +69,43 @@ theorem c12_source_responses :
     genWspSid = true := by
   decide
 
+/-- What a role acquires and what its `Close` hands back, whole calls with their arguments: the
+    interleaved and the UDP player keep the consumer id `StartConsume` returned in `c.cid` and stop
+    exactly that id; the multicast player registers the `*Session` `s` with the source's multicast
+    proxy and releases `c.Session` — the same value, the role object is built with `Session: s` — not
+    the role object itself (the proxy finds a member by comparing the interface values); the pusher
+    registers the stream it stores and unregisters the stored one.  The proxy keeps the first member,
+    starts socket and consumer with it, removes the member equal to the released value and stops
+    (consumer, socket, remaining members) when none is left.  The model's `releaseConsumer` /
+    `releaseStream` effects (`c12_teardown_releases`) stand for exactly these pairs. -/
+theorem c12_source_release_handles :
+    IpcHub.Gen.roleHandles =
+      [("tcp", ["c.cid = stream.StartConsume(s, media.RTPPacket, \"net=rtsp-tcp\")"], ["c.source.StopConsume(c.cid)"]),
+       ("udp", ["c.cid = stream.StartConsume(s, media.RTPPacket, \"net=rtsp-udp\")"], ["c.source.StopConsume(c.cid)"]),
+       ("multicast", ["ma.AddMember(s)"], ["c.source.Multicastable().ReleaseMember(c.Session)"]),
+       ("pusher", ["media.Regist(pusher.stream)"], ["media.Unregist(s.stream)"])] ∧
+    IpcHub.Gen.roleLiterals =
+      ["asTCPConsumer: tcpConsumer{ Session: s, source: stream, }", "asUDPConsumer: udpConsumer{ Session: s, source: stream, }",
+       "asMulticastConsumer: multicastConsumer{ Session: s, source: stream, }", "asTCPPusher: tcpPushStream{}"] ∧
+    IpcHub.Gen.proxyAddConds = ["len(proxy.members) == 0", "stream == nil", "err != nil", "port > 0"] ∧
+    IpcHub.Gen.proxyReleaseConds = ["m == m2", "len(proxy.members) == 0"] ∧
+    IpcHub.Gen.proxyAddCalls = ["net.ListenUDP", "append", "stream.StartConsume"] ∧
+    IpcHub.Gen.proxyReleaseCalls = ["append", "proxy.close"] ∧
+    IpcHub.Gen.proxyCloseCalls = ["stream.StopConsume", "proxy.udpConn.Close", "m.Close"] := by
+  decide
+
+/-- The member registry of the multicast proxy (multicast_proxy.go `AddMember` / `ReleaseMember`,
+    members as opaque handles): releasing the handle that was added stops the proxy; releasing ANY
+    other handle — the role object instead of the session — leaves the member, and with it socket
+    and consumer, in place. -/
+theorem c12_proxy_release (m : Nat) :
+    ((McProxy.idle.add m).release m) = McProxy.idle ∧
+    ∀ m', m' ≠ m → ((McProxy.idle.add m).release m').running = true ∧ ((McProxy.idle.add m).release m').members = [m] := by
+  refine ⟨by simp [McProxy.idle, McProxy.add, McProxy.release], fun m' h => ?_⟩
+  have : ([m].erase m') = [m] := by
+    simp [List.erase_cons, h.symm]
+  simp [McProxy.idle, McProxy.add, McProxy.release, this]
+
 /-- The refusal ladders of the handlers (condition, status constant, how the rung ends: the `return`
     that leaves the handler, or "else" when the accepting branch is skipped) in source order: the
     model's handlers mirror exactly these; a rung that no longer leaves the handler breaks this. -/
